@@ -98,7 +98,7 @@ def run_unit(world, unit, timeout_ms=10000, budget_s=300, canary=False):
             unit.post(it, ctx, out)
 
     try:
-        explore(run, res, timeout_ms=timeout_ms, deadline=t0 + budget_s)
+        explore(run, res, timeout_ms=timeout_ms, deadline=t0 + budget_s, prefer=unit.config.get('prefer', 'z3'))
     except OutOfSubset as e:
         res.status = "out-of-subset"
         res.errors.append(f"{unit.name}: out-of-subset: {e}")
